@@ -248,6 +248,9 @@ __CPROVER_ensures(G.s.tr_result ==> (G.o.op_state == W_REMOVED && G.s.tc_calls =
 __CPROVER_ensures(!G.s.tr_result ==> (G.s.tc_calls == 0 && G.s.set_done == 0)) /* already popped (or completed at start): nothing */
 /*@BODY op_stop*/
 
+/* op->evt_.ready() (not used by the pinned resume_): the event may have been reset meanwhile by anybody */
+static _Bool EV_evt_ready(void* op) { return VF_NB(); }
+
 void WOP_resume(struct waiter* self)
 __CPROVER_requires(self == &OP.base && OP.evt_ == &E && G.c.op_mine && !G.o.op_dead && G.o.op_state == W_POPPED && G.o.popped_by_me)
 __CPROVER_requires(G.s.tc_calls == 0 && G.s.resched == 0 && G.s.set_done == 0)
